@@ -12,11 +12,14 @@ Fixpoint add_attributes (st : fmap obj) (attrs : item) : option (fmap obj) :=
   | (k, v) :: rest => match to_obj v with Some o => add_attributes (insert k o st) rest | None => None end
   end.
 
+(* Language.Match; called with the probe alias table (an alias whose key is the empty string, which no validated
+   request can carry) it is Language.Check: the expression is parsed and not evaluated *)
 Definition lang_match (expr : str) (it vals : item) (names : fmap str) : outcome bool :=
   match parse_cond expr with
   | None => OutOfFuel
   | Some (ast, nerr) =>
       if negb (Nat.eqb nerr 0) then Err Syntax
+      else if mem [] names then Ok true
       else match add_attributes [] it with
            | None => Err Unsupported
            | Some st1 =>
